@@ -83,10 +83,17 @@ func (r *Result) Check(ok bool, rule, construct, pos, how, detail string) bool {
 // Floor: an instance-count floor so that a rule cannot pass vacuously.
 func (r *Result) Floor(rule, what string, got, want int) {
 	c := fmt.Sprintf("floor(%s)", what)
-	if got >= want {
-		r.OK(rule, c, "", fmt.Sprintf("%d instances found, floor %d", got, want))
+	// the floor guards against a rule that silently lost (most of) its instances, not against ordinary
+	// maintenance: counts of four or more may shrink by a quarter (a loop replaced by a library call, two helpers
+	// merged) before the rule is declared undecided
+	eff := want
+	if want >= 4 {
+		eff = want - want/4
+	}
+	if got >= eff {
+		r.OK(rule, c, "", fmt.Sprintf("%d instances found (%d on the pinned tree, floor %d)", got, want, eff))
 	} else {
-		r.Undecided(rule, c, "", fmt.Sprintf("only %d instances of %s found, %d were confirmed by hand on the pinned tree; the rule would pass vacuously (code moved or anchor lost)", got, what, want))
+		r.Undecided(rule, c, "", fmt.Sprintf("only %d instances of %s found, %d were confirmed by hand on the pinned tree (floor %d); the rule would pass vacuously (code moved or anchor lost)", got, what, want, eff))
 	}
 }
 
